@@ -4,7 +4,7 @@
 Require Extraction.
 Require ExtrOcamlBasic.
 From Coq Require Import List NArith ZArith String.
-From BV Require Import Base Fmt Gen.Escapes Buf Codec Get Gen.GetPut Cmp BufMut.
+From BV Require Import Base Fmt Gen.Escapes Buf Codec Get Gen.GetPut Cmp BufMut Heap Spec.
 Extraction Language OCaml.
 Extraction "model.ml"
   Fmt.parse_lit Fmt.debug_fmt Fmt.hex_fmt Fmt.unhex Fmt.tbl_of Fmt.visit Fmt.serialize Fmt.is_lower_hex Fmt.is_upper_hex
@@ -17,6 +17,8 @@ Extraction "model.ml"
   BufMut.written BufMut.remaining_mut BufMut.has_remaining_mut BufMut.chunk_mut BufMut.advance_mut BufMut.put_slice BufMut.put_bytes
   BufMut.put_buf BufMut.put BufMut.put_tables_ok BufMut.writer_write BufMut.set_limit_at_m BufMut.std_grow BufMut.tleaf_written
   Gen.GetPut.vec_reserve Gen.GetPut.bytesmut_reserve
+  Heap.hst0 Heap.run_op Heap.handles_of Heap.storages_of Heap.owners_of Heap.handle_unique Heap.handle_contents
+  Spec.sst0 Spec.sstep Spec.svals_of
   Cmp.cmp_bytes Cmp.eq_bytes
   Codec.dec Codec.spec_of_getter Codec.spec_of_putter Codec.enc
   Get.get Get.tables_ok
